@@ -113,6 +113,19 @@ func (f *frame) exec(in ssa.Instruction, g Term, st *State) error {
 		et := x.Type().Underlying().(*types.Slice).Elem()
 		obj := vc.allocObj(st, et)
 		f.set(x, MkSlice(obj, IntLit(0), ln, cp))
+		if f.top && f.spec != nil && f.spec.AllocBound != nil {
+			// C05-style budget: a data-dependent allocation must be bounded by the contract's expression,
+			// evaluated in the state just before the allocation (e.g. the bytes still unread)
+			if _, isConst := x.Cap.(*ssa.Const); !isConst {
+				env := f.specEnv(st, nil, nil)
+				env.atBlock = x.Block()
+				b, err := env.eval(f.spec.AllocBound.E)
+				if err != nil {
+					return fmt.Errorf("%s:%d: %v", f.spec.AllocBound.File, f.spec.AllocBound.Line, err)
+				}
+				vc.oblige("alloc-budget", f.loopClauseProps(f.spec.AllocBound), g, Le(Mul(cp, IntLit(tt.cells(et))), b.T), f.spec.AllocBound.Src, f.pos(x))
+			}
+		}
 		vc.trackAlloc(f, x, g, Mul(cp, IntLit(tt.cells(et))))
 	case *ssa.MakeMap:
 		mt := x.Type().Underlying().(*types.Map)
